@@ -156,11 +156,12 @@ func runC05(a *A) {
 	a.Rule("whomay/single-consumer", 2, func() {
 		S := a.Named("stream", "Stream")
 		dc := a.FieldOf(S, "dataChan")
-		allowed := map[string]string{
-			"(*stream.DataProcessor).Process":    "the single processing goroutine",
-			"(*stream.Stream).expandDataChannel": "migration of buffered rows into the larger channel, under the write lock",
-			"(*stream.Stream).Stop":              "discards what is still queued when the stream stops, under the write lock (each row counted as dropped: C19 flow/stop-drain-counted)",
-		}
+		// the one consumer is the processing goroutine; every other receive (migration into a larger
+		// channel, discarding what is queued at Stop) holds the data-channel lock exclusively, which the
+		// consumer's receive (under the read lock, C19 locks/receive-under-lock) cannot overlap
+		consumer := fname(a.Method("stream", "DataProcessor", "Process"))
+		L := a.Locks()
+		key := lockKey{"stream.Stream", "dataChanMux"}
 		n := 0
 		for _, fn := range a.ModFuncs {
 			allInstrs(fn, func(in ssa.Instruction) {
@@ -181,9 +182,10 @@ func runC05(a *A) {
 					t := TermOf(ch, nil)
 					if t.Kind == "field" && t.Field == dc {
 						n++
-						why, ok := allowed[fname(fn)]
-						if ok {
-							a.Ok("recv(dataChan)@"+fname(fn), in.Pos(), "%s", why)
+						if fname(fn) == consumer {
+							a.Ok("recv(dataChan)@"+fname(fn), in.Pos(), "the single processing goroutine")
+						} else if L.Held(in)[key] == 'W' {
+							a.Ok("recv(dataChan)@"+fname(fn), in.Pos(), "receives with dataChanMux held exclusively (migration / discard at Stop): cannot overlap the consumer's receive")
 						} else {
 							a.Bad("recv(dataChan)@"+fname(fn), in.Pos(), "%s receives from Stream.dataChan: a second consumer breaks per-producer order and exactly-once processing", fname(fn))
 						}
